@@ -16,6 +16,8 @@ package flowcontrol
 
 import (
 	"fmt"
+	"sync"
+
 	"github.com/zoumo/golib/lock/maxinflight"
 	"k8s.io/client-go/util/flowcontrol"
 
@@ -138,6 +140,10 @@ func (f *flowControl) MaxInflight() int32 {
 }
 
 type resizeableTokenBucket struct {
+	// lock orders the callers of the rate limiter: it takes its timestamp before it
+	// locks, and the vendored x/time/rate moves its clock backwards when timestamps
+	// arrive out of order, which hands out the tokens of the gap a second time
+	lock        sync.Mutex
 	rateLimiter flowcontrol.RateLimiter
 	name        string
 	typ         proxyv1alpha1.FlowControlSchemaType
@@ -150,6 +156,8 @@ func (f *resizeableTokenBucket) Type() proxyv1alpha1.FlowControlSchemaType {
 }
 
 func (f *resizeableTokenBucket) TryAcquire() bool {
+	f.lock.Lock()
+	defer f.lock.Unlock()
 	return f.rateLimiter.TryAccept()
 }
 
@@ -159,6 +167,8 @@ func (f *resizeableTokenBucket) String() string {
 
 func (f *resizeableTokenBucket) Resize(n uint32, burst uint32) bool {
 	resized := false
+	f.lock.Lock()
+	defer f.lock.Unlock()
 	if f.qps != n || f.burst != burst {
 		f.rateLimiter = flowcontrol.NewTokenBucketRateLimiter(float32(n), int(burst))
 		f.qps = n
